@@ -120,7 +120,10 @@ AUpdateAdmin == Ready /\ \E by \in Callers, new \in Admins \cup {"none"} :
   Call(Ev("update_admin", by, [new |-> new]), DoUpdateAdmin(by, new))
 AAddHook == Ready /\ \E by \in Callers, h \in HookAddrs : Call(Ev("add_hook", by, [hook |-> h]), DoAddHook(by, h))
 ARemoveHook == Ready /\ \E by \in Callers, h \in HookAddrs : Call(Ev("remove_hook", by, [hook |-> h]), DoRemoveHook(by, h))
-ABond == Ready /\ \E by \in Addr, a \in Amts : Call(Ev("bond", by, [amt |-> a, token |-> "good"]), DoBond(by, a))
+\* (schedules also try to bond another denomination and one whose name differs from the staked one only in case)
+BondTokens == IF GenMode THEN {"good", "otherdenom", "lookalike"} ELSE {"good"}
+ABond == Ready /\ \E by \in Addr, a \in Amts, tk \in BondTokens :
+  Call(Ev("bond", by, [amt |-> a, token |-> tk]), tk = "good" /\ DoBond(by, a))
 AUnbond == Ready /\ \E by \in Addr, a \in Amts : Call(Ev("unbond", by, [amt |-> a]), DoUnbond(by, a))
 AClaim == Ready /\ \E by \in Addr : Call(Ev("claim", by, [x |-> 0]), DoClaim(by))
 Advance ==
